@@ -228,8 +228,8 @@ def check_step(ctx, cfg, seg, kind, nv, units, lr_expected, tags, wit):
     rows = pos_b.numpy()
     bl = [["Z"] * nv] * len(rows) if bases_b is None else bases_b
     refs = []
-    for reg in ([0.0, 1e-8] if kind == "mixed" else [0.0]):
-        obj = R.t_sum_neg_log_p(kind, tam, tph, nv, rows, bl, reg=reg) / float(len(rows))
+    for reg, rot_only in ([(0.0, False), (1e-8, True), (1e-8, False)] if kind == "mixed" else [(0.0, False)]):
+        obj = R.t_sum_neg_log_p(kind, tam, tph, nv, rows, bl, reg=reg, reg_rotated_only=rot_only) / float(len(rows))
         if len(vk):
             # negative phase: minus the mean effective-energy gradient at the chain end states (held fixed)
             negterm = R.t_sum_neg_log_p(kind, tam, tph, nv, vk, [["Z"] * nv] * len(vk), reg=0.0) / float(len(neg_b))
@@ -240,7 +240,7 @@ def check_step(ctx, cfg, seg, kind, nv, units, lr_expected, tags, wit):
         else:
             obj_am = obj
         g_am = R.grads_of(obj_am, tam, tph)["am"]
-        g_ph = R.grads_of(R.t_sum_neg_log_p(kind, tam, tph, nv, rows, bl, reg=reg) / float(len(rows)), tam, tph)["ph"] if tph else {}
+        g_ph = R.grads_of(R.t_sum_neg_log_p(kind, tam, tph, nv, rows, bl, reg=reg, reg_rotated_only=rot_only) / float(len(rows)), tam, tph)["ph"] if tph else {}
         refs.append((g_am, g_ph))
     kd, dense = R.state_dense(kind, am, ph, nv)
     kappa = 1.0
